@@ -64,14 +64,22 @@ theorem deserString_nil (cfg : Cfg) (h : buf.drop i = []) : IsErr (deserString c
   obtain ⟨e', c, ht⟩ := takeStringScalar_nil ref cfg h
   simp only [deserString, peek_nil ref h]; simp [ht]
 
-theorem deserStr_scalar {v : List Char} {tag : Nat} {rt : Option (List Char)} {st : Style} {a : Nat} {l : Loc}
+theorem deserStr_scalar (cfg : Cfg) {v : List Char} {tag : Nat} {rt : Option (List Char)} {st : Style} {a : Nat} {l : Loc}
     (h : buf.drop i = .scalar v tag rt st a l :: tl) :
-    Expect (deserStr (.replay buf i ref)) (identOf (.scalar v tag rt st a l)) (.replay buf (i + 1) ref) := by
-  simp only [deserStr, peek_cons ref h, next_cons ref h, identOf]
-  split <;> simp
+    Expect (deserStr cfg (.replay buf i ref)) (identOf cfg (.scalar v tag rt st a l)) (.replay buf (i + 1) ref) := by
+  have hs := deserString_scalar ref cfg h
+  simp only [deserStr, peek_cons ref h, identOf]
+  cases hid : stringTyped cfg v tag st with
+  | none =>
+    simp only [hid, Option.map_none, expect_none] at hs
+    obtain ⟨e, c, he⟩ := hs
+    simp [he]
+  | some s =>
+    simp only [hid, Option.map_some, expect_some] at hs
+    simp [hs]
 
-theorem deserStr_other {e : Ev} (h : buf.drop i = e :: tl) (he : Ev.isScalar e = false) :
-    IsErr (deserStr (.replay buf i ref)) := by
+theorem deserStr_other (cfg : Cfg) {e : Ev} (h : buf.drop i = e :: tl) (he : Ev.isScalar e = false) :
+    IsErr (deserStr cfg (.replay buf i ref)) := by
   simp only [deserStr, peek_cons ref h]
   cases e <;> simp [Ev.isScalar] at he ⊢
 
